@@ -12,6 +12,7 @@ Trace == ndJsonDeserialize(TraceFile)
 VARIABLE l
 
 Rej(r, what, detail) == PrintT("REJECT " \o ToJson(<<"C05", r.id, what, detail>>)) /\ FALSE
+RejP(prop, r, what, detail) == PrintT("REJECT " \o ToJson(<<prop, r.id, what, detail>>)) /\ FALSE
 
 IsDigit(b) == b >= 48 /\ b <= 57
 D2(s, i) == (s[i] - 48) * 10 + (s[i + 1] - 48)
@@ -34,18 +35,27 @@ Check(r) ==
       bad == {j \in 1..Len(F) : F[j].seq # r.start + j}
       j0 == IF bad = {} THEN 0 ELSE CHOOSE j \in bad : \A k \in bad : j <= k
       apps == SelectSeq(r.msgs, LAMBDA m : m.ty = "V" /\ m.dupOf = 0)
-  IN /\ (bad = {} \/ Rej(r, "outbound sequence numbers on the wire are not consecutive",
+      \* every clause is evaluated (a failing one must not hide the others: "\in BOOLEAN" forces the evaluation)
+      c1 == (bad = {} \/ Rej(r, "outbound sequence numbers on the wire are not consecutive",
                          [position |-> j0, expected |-> r.start + j0, got |-> F[j0].seq, kind |-> r.kind, gate |-> r.gate,
                           order |-> r.order, seqs |-> [j \in 1..Len(F) |-> F[j].seq]]))
-     /\ (Len(apps) = r.expected \/ Rej(r, "number of application messages on the wire differs from the number sent",
+      c2 == (Len(apps) = r.expected \/ Rej(r, "number of application messages on the wire differs from the number sent",
                                       [got |-> Len(apps), expected |-> r.expected, kind |-> r.kind]))
-     /\ ((\A j \in 1..Len(r.msgs) : r.msgs[j].sender = r.expSender /\ r.msgs[j].target = r.expTarget)
+      \* (C14) the Heartbeats that echo the peer's TestReqIDs "qNNN" leave in the order in which the requests came (ascending NNN),
+      \* each once - also when they had to wait in a full queue behind a transport that was blocked
+      E == SelectSeq(r.msgs, LAMBDA m : m.ty = "0" /\ m.dupOf = 0 /\ Len(m.trid) = 4 /\ m.trid[1] = 113)
+      num(m) == (m.trid[2] - 48) * 100 + (m.trid[3] - 48) * 10 + (m.trid[4] - 48)
+      c3 == ((\A j \in 1..(Len(E) - 1) : num(E[j]) < num(E[j + 1]))
+             \/ RejP("C14", r, "Heartbeats echoing TestReqIDs leave in another order than the TestRequests arrived, or twice",
+                     [order |-> [j \in 1..Len(E) |-> num(E[j])]]))
+      c4 == ((\A j \in 1..Len(r.msgs) : r.msgs[j].sender = r.expSender /\ r.msgs[j].target = r.expTarget)
            \/ Rej(r, "sender / target identifiers differ from the session's", [kind |-> r.kind]))
-     /\ ((\A j \in 1..Len(r.msgs) : TimeFormat(r.msgs[j].time))
+      c5 == ((\A j \in 1..Len(r.msgs) : TimeFormat(r.msgs[j].time))
            \/ Rej(r, "SendingTime is not in FIX timestamp format", [kind |-> r.kind]))
-     /\ ((r.virtual => \A j \in 1..Len(F) :
+      c6 == ((r.virtual => \A j \in 1..Len(F) :
             (F[j].t < 86400000 /\ TimeFormat(F[j].time)) => (SubSeq(F[j].time, 1, 8) = VirtualDate /\ MsOfDay(F[j].time) = F[j].t))
            \/ Rej(r, "SendingTime was not taken at send time", [kind |-> r.kind]))
+  IN (c1 \in BOOLEAN) /\ (c2 \in BOOLEAN) /\ (c3 \in BOOLEAN) /\ (c4 \in BOOLEAN) /\ (c5 \in BOOLEAN) /\ (c6 \in BOOLEAN)
 
 Init == l = 1
 Next == l <= Len(Trace) /\ (Check(Trace[l]) \in BOOLEAN) /\ l' = l + 1
